@@ -2,6 +2,8 @@ package consrig
 
 import (
 	"fmt"
+	"strconv"
+	"strings"
 
 	"github.com/Shopify/sarama"
 
@@ -57,20 +59,20 @@ type verInfo struct {
 var versions = []verInfo{
 	{"0.8.2.0", []int{0, 1}},
 	{"0.9.0.0", []int{0, 1}},
-	{"0.10.0.0", []int{0, 1, 2, 3, 4, 9}},
-	{"0.10.1.0", []int{0, 2, 3, 4}},
-	{"0.11.0.0", []int{0, 3, 4, 5, 6, 7, 8}},
+	{"0.10.0.0", []int{0, 1, 2, 3, 4, 9, 10}},
+	{"0.10.1.0", []int{0, 2, 3, 4, 10}},
+	{"0.11.0.0", []int{0, 3, 4, 5, 6, 7, 8, 10}},
 	{"1.1.0", []int{5, 6, 8}},
 	{"2.1.0", []int{1, 3, 5, 6, 7, 8}},
 	{"2.3.0", []int{5, 6}},
 	{"2.8.0", []int{2, 5, 6, 8}},
 }
 
-func compressed(f int) bool { return f == 1 || f == 3 || f == 4 || f == 6 }
+func compressed(f int) bool { return f == 1 || f == 3 || f == 4 || f == 6 || f == 10 }
 
 // LayoutFamily enumerates the layout layer of C03 (run with the default schedule, bound 0).
 func LayoutFamily(thorough bool) []string {
-	maxN := 3
+	maxN := 4
 	if thorough {
 		maxN = 5
 	}
@@ -101,10 +103,9 @@ func LayoutFamily(thorough bool) []string {
 						}
 						for _, codec := range codecs {
 							p := &Params{N: n, Cuts: cuts, Codec: codec}
-							for _, x := range fl {
-								if x >= '0' && x <= '9' {
-									p.Fmts = append(p.Fmts, int(x-'0'))
-								}
+							for _, x := range strings.Split(fl, ",") {
+								n, _ := strconv.Atoi(x)
+								p.Fmts = append(p.Fmts, n)
 							}
 							bs, _ := BuildLog(p, 0)
 							// fetch sizes: default (everything), and at / one below / one above the end of the first and second batch
@@ -130,7 +131,7 @@ func LayoutFamily(thorough bool) []string {
 										continue
 									}
 									for _, ctl := range []int{0, 1} {
-										if ctl == 1 && (f < 5 || si > 1 || (st != "old" && st != "0")) {
+										if ctl == 1 && (f < 5 || f > 8 || si > 1 || (st != "old" && st != "0")) {
 											continue
 										}
 										for _, buf := range []int{0, 2} {
